@@ -379,7 +379,13 @@ func runC08(w *World, tier string) (bool, interface{}) {
 		if err := w.RestartNode(v); err != nil {
 			panic(err)
 		}
-		body, _ := json.Marshal(map[string]interface{}{"new_state_dbdsn": v.StateDir + "_reset", "use_offset": true, "messages": []string{}})
+		// the process has looked at its rounds before the operator resets it (whatever it
+		// keeps in memory about them is warm)
+		for _, r := range rounds {
+			_ = projectNode(v, r, true)
+		}
+		resetDir := v.StateDir + "_reset"
+		body, _ := json.Marshal(map[string]interface{}{"new_state_dbdsn": resetDir, "use_offset": true, "messages": []string{}})
 		if rp := w.CallAPI(v, "reset", "POST", "/resetState", body); !rp.OK() {
 			w.Fail("C08", "reset-rejected", rp.ErrMsg)
 			return true, nil
@@ -395,6 +401,23 @@ func runC08(w *World, tier string) (bool, interface{}) {
 			compared++
 			if a := projectNode(v, r, true); a != before[r] {
 				w.Fail("C08", "state-after-reset-differs", fmt.Sprintf("after a state reset and re-reading the log %s differs from its state before the reset on round %.8s: %s", v.Name, r, firstDiff(before[r], a)))
+			}
+		}
+		// ... and what the replay wrote into the new database is that state too: the
+		// process is restarted on the database the reset created
+		if !w.Failed() && v.Offset() >= uint64(len(L)) {
+			w.stopNode(v, true)
+			v.StateDir = resetDir
+			if err := w.RestartNode(v); err != nil {
+				w.Fail("C08", "restart-on-reset-database-failed", err.Error())
+				return true, nil
+			}
+			w.Stats.Fault("restart-after-state-reset")
+			for _, r := range rounds {
+				compared++
+				if a := projectNode(v, r, true); a != before[r] {
+					w.Fail("C08", "state-after-reset-differs/after-restart", fmt.Sprintf("%s was reset, re-read the whole log and was restarted on the database the reset created: its round %.8s differs from the state before the reset: %s", v.Name, r, firstDiff(before[r], a)))
+				}
 			}
 		}
 	}
